@@ -47,24 +47,38 @@ def liftRes {α} : Res α → Except Err α
   | .ok a => .ok a
   | _ => .error .outOfFuel
 
+/-- an optional stage: absent (`None`) means the line passes through -/
+def optStage {α} (f : α → List Char → Except Err (List Char)) : Option α → List Char → Except Err (List Char)
+  | some a, l => f a l
+  | none, l => .ok l
+
+def ip6Stage (p : Pipeline) : List Char → Except Err (List Char) :=
+  optStage (fun c l => liftRes (IpText.anonIpLine c p.undo l)) p.ip6
+def ip4Stage (p : Pipeline) : List Char → Except Err (List Char) :=
+  optStage (fun c l => liftRes (IpText.anonIpLine c p.undo l)) p.ip4
+def wordStage (p : Pipeline) : List Char → Except Err (List Char) :=
+  optStage (fun w l => liftRes (Words.anonymize p.wenv w l)) p.words
+def asStage (p : Pipeline) : List Char → Except Err (List Char) :=
+  optStage (fun a l => liftRes (AsNum.anonymize a l)) p.asn
+
+/-- the secret stage: the only one with state (the lookup table) and with log records -/
+def secretStage (p : Pipeline) (lk : Lookup) (line : List Char) : Except Err (List Char × Lookup × List LogRec) :=
+  match p.secrets with
+  | some sc => replaceMatchingItem p.ext sc.formats sc.groups p.salt line lk
+  | none => .ok (line, lk, [])
+
+/-- the four stateless stages in their fixed order: IPv6, IPv4, sensitive words, AS numbers -/
+def pureStages (p : Pipeline) (l : List Char) : Except Err (List Char) :=
+  ip6Stage p l >>= ip4Stage p >>= wordStage p >>= asStage p
+
 /-- one iteration of the `for line in in_io.readlines()` loop -/
-def lineStep (p : Pipeline) (lk : Lookup) (line : List Char) : Except Err (List Char × Lookup × List LogRec) := do
-  let (l1, lk1, logs) ← match p.secrets with
-    | some sc => replaceMatchingItem p.ext sc.formats sc.groups p.salt line lk
-    | none => pure (line, lk, [])
-  let l2 ← match p.ip6 with
-    | some c => liftRes (IpText.anonIpLine c p.undo l1)
-    | none => pure l1
-  let l3 ← match p.ip4 with
-    | some c => liftRes (IpText.anonIpLine c p.undo l2)
-    | none => pure l2
-  let l4 ← match p.words with
-    | some w => liftRes (Words.anonymize p.wenv w l3)
-    | none => pure l3
-  let l5 ← match p.asn with
-    | some a => liftRes (AsNum.anonymize a l4)
-    | none => pure l4
-  pure (l5, lk1, logs)
+def lineStep (p : Pipeline) (lk : Lookup) (line : List Char) : Except Err (List Char × Lookup × List LogRec) :=
+  match secretStage p lk line with
+  | .error e => .error e
+  | .ok (l1, lk1, logs) =>
+    match pureStages p l1 with
+    | .error e => .error e
+    | .ok l5 => .ok (l5, lk1, logs)
 
 /-- `anonymize_io` on the list of lines; one output line per input line, in order -/
 def anonymizeLines (p : Pipeline) : Lookup → List (List Char) → Except Err (List (List Char) × Lookup × List LogRec)
